@@ -1,6 +1,8 @@
 package checks
 
 import (
+	"time"
+
 	"verifharness/internal/core"
 	"verifharness/internal/gen"
 )
@@ -31,9 +33,70 @@ func uniqSizes(f map[string]any, cov map[string]int) {
 	}
 }
 
+// fixAST converts the JSON of a TLA+ formula record into the driver's AST (kids always a list).
+func fixAST(v any) gen.M {
+	m := v.(map[string]any)
+	kids := []gen.M{}
+	if l, ok := m["kids"].([]any); ok {
+		for _, k := range l {
+			kids = append(kids, fixAST(k))
+		}
+	}
+	return gen.M{"op": m["op"], "i": int(m["i"].(float64)), "kids": kids}
+}
+
+func bfDesigns(op string) []core.Design {
+	toCases := func(env *core.Env, emitted []core.Case) []core.Case {
+		var res []core.Case
+		for _, e := range emitted {
+			k := int(e["k"].(float64))
+			res = append(res, gen.M{"drv": "bf", "k": k, "names": gen.Names(k), "hasF": true, "f": fixAST(e["f"]), "ev": []gen.M{gen.Op(op)}})
+		}
+		if len(res) > 12000 {
+			env.Rand.Shuffle(len(res), func(i, j int) { res[i], res[j] = res[j], res[i] })
+			res = res[:12000]
+		}
+		return res
+	}
+	return []core.Design{
+		{Name: "bfgen", Module: "BFGen", Cfg: "BFGen_quick.cfg", Tier: "quick", Workers: 8, XmxMB: 6000, Timeout: 10 * time.Minute, ToCases: toCases},
+		{Name: "bfgen", Module: "BFGen", Cfg: "BFGen_thorough.cfg", Tier: "thorough", Workers: 16, XmxMB: 12000, Timeout: 30 * time.Minute, ToCases: toCases},
+	}
+}
+
+func parseDesigns() []core.Design {
+	toCases := func(env *core.Env, emitted []core.Case) []core.Case {
+		var good, bad []core.Case
+		for _, e := range emitted {
+			toks := []string{}
+			for _, t := range e["ts"].([]any) {
+				toks = append(toks, t.(string))
+			}
+			c := gen.M{"drv": "bf", "k": 2, "names": []string{"a", "b"}, "hasF": false, "f": gen.M{"op": "F", "i": 0, "kids": []gen.M{}}, "kind": "enumerated",
+				"ev": []gen.M{{"op": "parse", "tokens": toks, "seed": env.Rand.Intn(1 << 20), "layout": env.Rand.Intn(2)}}}
+			if ok, _ := e["ok"].(bool); ok {
+				good = append(good, c)
+			} else {
+				bad = append(bad, c)
+			}
+		}
+		limit := env.Pick(3000, 40000)
+		if len(bad) > limit {
+			env.Rand.Shuffle(len(bad), func(i, j int) { bad[i], bad[j] = bad[j], bad[i] })
+			bad = bad[:limit]
+		}
+		return append(good, bad...)
+	}
+	return []core.Design{
+		{Name: "parsegen", Module: "BFParseGen", Cfg: "BFParseGen_quick.cfg", Tier: "quick", Workers: 12, XmxMB: 6000, Timeout: 10 * time.Minute, ToCases: toCases},
+		{Name: "parsegen", Module: "BFParseGen", Cfg: "BFParseGen_thorough.cfg", Tier: "thorough", Workers: 16, XmxMB: 12000, Timeout: 40 * time.Minute, ToCases: toCases},
+	}
+}
+
 func init() {
 	register(&core.Check{
 		ID:          "C11",
+		Designs:     bfDesigns("solve"),
 		TraceModule: "BFTrace",
 		Cases: func(env *core.Env) []core.Case {
 			r := env.Rand
@@ -84,6 +147,7 @@ func init() {
 
 	register(&core.Check{
 		ID:          "C12",
+		Designs:     bfDesigns("dimacs"),
 		TraceModule: "BFTrace",
 		Cases: func(env *core.Env) []core.Case {
 			r := env.Rand
@@ -129,6 +193,7 @@ func init() {
 
 	register(&core.Check{
 		ID:          "C17",
+		Designs:     parseDesigns(),
 		TraceModule: "BFTrace",
 		Cases: func(env *core.Env) []core.Case {
 			r := env.Rand
@@ -171,6 +236,6 @@ func init() {
 			return nt
 		},
 		Rule:    "cases: syntax trees of size <=8 over <=4 identifiers (^, &, |, ->, =, ;, exactly-one groups) rendered as token strings with the parentheses the priorities require plus redundant ones, seeded spacing and line breaks; one third with one token dropped / duplicated / swapped / inserted; the reference grammar (BFParse.tla) decides what each text means; non-trivial = at least three tokens",
-		Require: []string{"kind.well-formed", "kind.corrupted", "reply.error", "reply.formula", "tok.;", "tok.=", "tok.->", "tok.{", "tok.("},
+		Require: []string{"kind.well-formed", "kind.corrupted", "kind.enumerated", "reply.error", "reply.formula", "tok.;", "tok.=", "tok.->", "tok.{", "tok.("},
 	})
 }
